@@ -592,6 +592,174 @@ def unit_split(ctx, quick):
     ctx.notes.append("split_coverage_regions under translation: %d cases, the theorems apply to %d; in %d of the others (long cluster, k not a multiple of the bin) the clean code cuts at another place relative to the reads (recorded, not a failure)" % (len(cases), n_apply, elsewhere))
 
 
+# ---------------------------------------------------------------------------------------------- select_best_among_inconsistent
+PRE_SCORE = r"""From Coq Require Import QArith Floats.
+From IQ Require Import Junctions AssignerDefs AssignerScore Mirror MirrorScore.
+From IQ.gen Require Import Tables.
+Open Scope Z_scope.
+Inductive fres := FSel (ids:list Z) (pen:float) | FRaises (k:Z).
+(* (params, events per candidate isoform, result of the real method, result of the real method on the events with left / right swapped) *)
+Definition T := (params * list (Z * list sev) * fres * fres)%type.
+Definition agrees (m:option (list Z * float)) (out:fres) : bool :=
+  match m, out with
+  | Some (ids, pen), FSel ids' pen' => list_eqb Z.eqb ids ids' && PrimFloat.eqb pen pen'
+  | None, FRaises 5 => true
+  | _, _ => false
+  end.
+Definition check (c:T) : bool := let '(P, ms, out, outm) := c in agrees (select_best P ms) out && agrees (select_best P (swap_matches ms)) outm.
+Definition prop (c:T) : bool := let '(P, ms, out, outm) := c in
+  match out, outm with FSel a x, FSel b y => list_eqb Z.eqb a b && PrimFloat.eqb x y | FRaises j, FRaises k => j =? k | _, _ => false end.
+"""
+
+def unit_score(ctx, quick):
+    from props.c01 import cparams, mk_params, small_params, csev, MATCHING, PFIELDS, call as call01
+    from src.isoform_assignment import MatchEventSubtype as M, MatchEvent
+    from src.long_read_assigner import LongReadAssigner
+    rnd = ctx.rnd; cases = []
+    ABS = (1 << 31) - 1; UND = (1 << 31, 1 << 31)
+    sided = [t.name for t in M if "left" in t.name or "right" in t.name]
+    other = ["exon_skipping_known", "exon_gain_novel", "intron_retention", "fake_micro_intron_retention", "intron_shift", "exon_misalignment", "extra_intron_novel", "alternative_structure_novel", "none", "fsm", "mono_exonic"]
+    def rand_event():
+        t = rnd.choice(sided) if rnd.random() < .7 else rnd.choice(other)
+        def reg():
+            r = rnd.random()
+            if r < .35: return UND
+            if r < .45: return (ABS, rnd.randint(0, 5))
+            a = rnd.randint(0, 5); return (a, a + rnd.choice([0, 0, 1, 2]))
+        info = rnd.choice([0, 7, 49, 50, 51, 100, 120, 175, 250, 299, 300, 301, 1000]) if "elongation" in t else rnd.choice([0, 0, 1234])
+        return (t, reg(), reg(), info)
+    corpus = [[(1, [("major_exon_elongation_left", UND, UND, 100)]), (2, [("major_exon_elongation_right", UND, UND, 250)])],
+              [(1, [("major_exon_elongation_right", UND, UND, 100)]), (2, [("major_exon_elongation_left", UND, UND, 250)])]]
+    for it in range(len(corpus) + (1500 if quick else 20000)):
+        P = mk_params(rnd.choice(MATCHING)) if rnd.random() < .7 else small_params(1)
+        if it < len(corpus): ms = corpus[it]; P = mk_params("default")
+        else: ms = [(i + 1, [rand_event() for _e in range(rnd.choice([1, 1, 2, 3]))]) for i in range(rnd.choice([1, 2, 2, 3]))]
+        def run(ms_):
+            asg = LongReadAssigner.__new__(LongReadAssigner); asg.params = P
+            asg.resolve_by_nucleotide_score = lambda crp, isoforms, similarity_function=None: list(isoforms)
+            rm = collections.OrderedDict((i, [MatchEvent(M[t], ir, rr, info) for t, ir, rr, info in evs]) for i, evs in ms_)
+            r = call01(asg.select_best_among_inconsistent, None, rm)
+            return r, ("(FSel %s %s%%float)" % (czs(r[1][0]), float(r[1][1]).hex()) if r[0] == "ok" else "(FRaises %d)" % r[1])
+        msm = [(i, [(T.swap_lr(t), ir, rr, info) for t, ir, rr, info in evs]) for i, evs in ms]
+        r0, o0 = run(ms); r1, o1 = run(msm)
+        term = "(%s, %s, %s, %s)" % (cparams(P), clist(ms, lambda m: "(%d, %s)" % (m[0], clist(m[1], csev))), o0, o1)
+        cases.append((term, dict(params={f: getattr(P, f) for f in PFIELDS}, matches=ms, impl=r0, impl_left_right_swapped=r1)))
+    ctx.rule("LongReadAssigner.select_best_among_inconsistent (real method, tie-break by nucleotide score switched off): 1-3 candidate isoforms with 1-3 events, mostly left/right event types, elongation lengths "
+             "around the interpolation boundaries (50, 300), real presets; the same candidates with left and right swapped in every event; Coq: bit-exact float model = implementation on both, penalties and "
+             "selection identical; non-trivial = more than one candidate")
+    mism, viol = ctx.corr("select_best_among_inconsistent left/right", PRE_SCORE, cases, shard=max(50, len(cases) // 16 + 1), ctype="T", nontrivial=lambda o: len(o["matches"]) > 1)
+    report_strict(ctx, "select_best_among_inconsistent left/right", mism, viol, what="select_best_among_inconsistent scores a candidate differently when left and right are swapped in its events")
+
+
+# ---------------------------------------------------------------------------------------------- is_start_internal / is_end_internal
+PRE_INT = """From IQ Require Import Mirror MirrorPairs MirrorPairsProofs.
+Open Scope Z_scope.
+(* case: ((delta, neighbouring introns, read end, L), is_end_internal, is_start_internal on the mirrored input) *)
+Definition T := ((Z * list iv * Z * Z) * bool * bool)%type.
+Definition check (c:T) := let '(delta, out, e, L) := fst (fst c) in
+  Bool.eqb (is_end_internal delta out e) (snd (fst c)) && Bool.eqb (is_start_internal delta (rfl L out) (L + 1 - e)) (snd c).
+Definition prop (c:T) := Bool.eqb (snd (fst c)) (snd c).
+"""
+
+def unit_internal(ctx, quick):
+    from src import intron_graph as ig
+    rnd = ctx.rnd; cases = []; L = 5000
+    def graph(delta, inc, out, intron):
+        g = ig.IntronGraph.__new__(ig.IntronGraph); g.params = types.SimpleNamespace(delta=delta)
+        g.incoming_edges = collections.defaultdict(set, {intron: set(inc)}); g.outgoing_edges = collections.defaultdict(set, {intron: set(out)})
+        return g
+    for it in range(1500 if quick else 15000):
+        delta = rnd.choice([0, 3, 6]); base = rnd.randint(1000, 3000); intron = (base - 300, base - 100)
+        out = sorted(set((base + rnd.randint(0, 300), base + 400 + rnd.randint(0, 300)) for _ in range(rnd.randint(0, 3))))
+        cand = [base] + [x + d for o in out for x in o for d in (-delta - 1, -delta, -1, 0, 1, delta, delta + 1)]
+        e = rnd.choice(cand)
+        r0 = graph(delta, [], out, intron).is_end_internal(intron, e)
+        r1 = graph(delta, [mir_iv(L, o) for o in out], [], mir_iv(L, intron)).is_start_internal(mir_iv(L, intron), L + 1 - e)
+        cases.append(("(((%s, %s, %s, %s), %s), %s)" % (cz(delta), civs(out), cz(e), cz(L), cbool(r0), cbool(r1)),
+                      {"delta": delta, "outgoing_introns": out, "read_end": e, "L": L, "is_end_internal": r0, "is_start_internal(mirror)": r1}))
+    ctx.rule("IntronGraph.is_end_internal / is_start_internal (real methods on a stub graph): 0-3 neighbouring introns, read end at +-{0, 1, delta, delta+1} of every intron boundary; is_end_internal on the input, "
+             "is_start_internal on the mirrored input; Coq: model = implementation for each half, answers equal; non-trivial = internal")
+    mism, viol = ctx.corr("is_end_internal / is_start_internal", PRE_INT, cases, shard=max(50, len(cases) // 16 + 1), ctype="T", nontrivial=lambda o: o["is_end_internal"])
+    report_strict(ctx, "is_end_internal / is_start_internal", mism, viol, what="is_start_internal on the mirrored input is not is_end_internal on the input")
+
+
+# ---------------------------------------------------------------------------------------------- compare_junctions (incl. add_extra_out_exon_events)
+PRE_CJM = r"""From Coq Require Import QArith.
+From IQ Require Import Intervals Junctions Mirror MirrorJunctions.
+From IQ.gen Require Import Tables Prims.
+Open Scope Z_scope.
+(* (params, gene introns, gene region, read region, read junctions, isoform region, isoform junctions, L), output, output on the mirrored input *)
+Definition T := ((params * list iv * iv * iv * list iv * iv * list iv * Z) * outcome (list event) * outcome (list event))%type.
+Definition check (c:T) : bool := let '(P, K, g, rr, R, ir, II, L) := fst (fst c) in
+  outcome_eqb events_eqb (Ok (compare_junctions_gene P K g rr R ir II)) (snd (fst c)) &&
+  outcome_eqb events_eqb (Ok (compare_junctions_gene P (rfl L K) (rf L g) (rf L rr) (rfl L R) (rf L ir) (rfl L II))) (snd c).
+(* mirror image of an event: mevent of MirrorJunctions.v *)
+Definition count_ev (e:event) (l:list event) : nat := length (filter (event_eqb e) l).
+Definition same_events (a b:list event) : bool := forallb (fun e => Nat.eqb (count_ev e a) (count_ev e b)) (a ++ b).
+Definition prop (c:T) : bool := let '(P, K, g, rr, R, ir, II, L) := fst (fst c) in
+  match snd (fst c), snd c with
+  | Ok a, Ok b => same_events b (map (mevent (Z.of_nat (length R)) (Z.of_nat (length II))) a)
+  | Raises j, Raises k => N.eqb j k
+  | _, _ => false
+  end.
+"""
+
+def unit_junctions(ctx, quick):
+    from props.c01 import cparams, mk_params, real_compare, cev as cev01, cout as cout01, PFIELDS
+    rnd = ctx.rnd; cases = []; L = 20000
+    P = mk_params("default"); mf = P.max_fake_terminal_exon_len; mi = P.micro_intron_length; mo = P.minimal_exon_overlap; d = P.delta; mx = P.minor_exon_extension
+    iso = [(3000, 3300), (3700, 3900), (4300, 5000), (5400, 5700)]
+    def introns(ex): return [(a[1] + 1, b[0] - 1) for a, b in zip(ex, ex[1:])]
+    def reg(ex): return (ex[0][0], ex[-1][1])
+    reads = []
+    # (a) an extra terminal exon beyond the isoform, of length max_fake_terminal_exon_len + {-1, 0, 1, 2}, on either side, one or two extra exons
+    for ln in (mf - 1, mf, mf + 1, mf + 2, 5):
+        reads.append(("extra_right_%d" % ln, iso + [(6100, 6100 + ln - 1)])); reads.append(("extra_left_%d" % ln, [(2500 - ln + 1, 2500)] + iso))
+        reads.append(("extra2_right_%d" % ln, iso + [(6100, 6300), (6600, 6600 + ln - 1)])); reads.append(("extra2_left_%d" % ln, [(2000 - ln + 1, 2000), (2300, 2500)] + iso))
+        reads.append(("only_extra_%d" % ln, [(2500 - ln + 1, 2500), (2700, 2750)])); reads.append(("only_extra_r_%d" % ln, [(6000, 6050), (6300, 6300 + ln - 1)]))
+    # (b) splice sites moved by delta + {-1, 0, 1} on either side of every intron; truncated reads ending around minor_exon_extension inside an intron
+    for sh in (d - 1, d, d + 1, 2 * d, 2 * d + 1):
+        for j in range(3):
+            for side in (0, 1):
+                for sg in (-1, 1):
+                    ex = [list(e) for e in iso]
+                    if side == 0: ex[j][1] += sg * sh
+                    else: ex[j + 1][0] += sg * sh
+                    reads.append(("site_%d_%d_%d_%d" % (sh, j, side, sg), [tuple(e) for e in ex]))
+    for ov in (mx - 1, mx, mx + 1, 3):
+        reads.append(("into_intron_r_%d" % ov, iso[:2] + [(4300, 5000 + ov)])); reads.append(("into_intron_l_%d" % ov, [(3700 - ov, 3900)] + iso[2:]))
+        reads.append(("mono_r_%d" % ov, [(4400, 5000 + ov)])); reads.append(("mono_l_%d" % ov, [(3700 - ov, 3850)]))
+    # (c) an isoform with a micro-intron of length micro_intron_length + {-1, 0, 1} that the read retains, the retaining exon reaching minimal_exon_overlap + {-1, 0, 1} beyond it
+    isos = [(iso, reads)]
+    for ml in (mi - 1, mi, mi + 1):
+        for where in ("first", "middle", "last"):
+            base = {"first": [(3000, 3100), (3100 + ml + 1, 3300), (3700, 3900), (4300, 5000)], "middle": [(3000, 3300), (3700, 3800), (3800 + ml + 1, 3900), (4300, 5000)],
+                    "last": [(3000, 3300), (3700, 3900), (4300, 4600), (4600 + ml + 1, 5000)]}[where]
+            k = {"first": 0, "middle": 1, "last": 2}[where]
+            rs = []
+            merged = base[:k] + [(base[k][0], base[k + 1][1])] + base[k + 2:]
+            rs.append(("retain_%d_%s" % (ml, where), merged))
+            for o in (mo - 1, mo, mo + 1):
+                if where == "first": rs.append(("retain_short_%d_%s_%d" % (ml, where, o), [(base[0][1] - o + 1, base[1][1])] + base[2:]))
+                if where == "last": rs.append(("retain_short_%d_%s_%d" % (ml, where, o), base[:2] + [(base[2][0], base[3][0] + o - 1)]))
+            isos.append((base, rs))
+    for isoform, rs in isos:
+        I = introns(isoform); ireg = reg(isoform); K = sorted(set(I + introns(iso))); greg = (2900, 5800)
+        for name, ex in rs:
+            R = introns(ex); rreg = reg(ex)
+            r0 = real_compare(P, K, greg, rreg, R, ireg, I)
+            r1 = real_compare(P, mir_ivs(L, K), mir_iv(L, greg), mir_iv(L, rreg), mir_ivs(L, R), mir_iv(L, ireg), mir_ivs(L, I))
+            o = lambda r: cout01(r, lambda l: clist(l, cev01))
+            term = "(((%s, %s, %s, %s, %s, %s, %s, %s), %s), %s)" % (cparams(P), civs(K), civ(greg), civ(rreg), civs(R), civ(ireg), civs(I), cz(L), o(r0), o(r1))
+            cases.append((term, dict(read=name, read_exons=ex, isoform_exons=isoform, gene_introns=K, L=L, events=r0, events_on_mirrored_input=r1)))
+    ctx.rule("JunctionComparator.compare_junctions incl. add_extra_out_exon_events (real class with a real OverlappingFeaturesProfileConstructor, `default` preset) on a 4-exon isoform: extra terminal exons of length "
+             "max_fake_terminal_exon_len + {-1, 0, 1, 2} on either side (one or two extra exons, reads with only extra exons), splice sites moved by delta-1 .. 2 delta+1 on either side of every intron, reads ending "
+             "minor_exon_extension + {-1, 0, 1} inside an intron (spliced and unspliced), retained micro-introns of length micro_intron_length + {-1, 0, 1} in the first / a middle / the last exon with overlaps "
+             "minimal_exon_overlap + {-1, 0, 1}; input and mirrored input; Coq: model of Junctions.v = implementation on both, event multisets mirror images; non-trivial = an event other than none")
+    mism, viol = ctx.corr("compare_junctions mirror", PRE_CJM, cases, shard=max(10, len(cases) // 16 + 1), ctype="T", nontrivial=lambda o: o["events"][0] == "ok" and any(e[0] != "none" for e in o["events"][1]))
+    report_strict(ctx, "compare_junctions mirror", mism, viol, what="compare_junctions on the mirrored input does not give the mirrored events")
+
+
 def report_strict(ctx, name, mism, viol, keyfn=None, what=None):
     """like corr_report, but a model/implementation mismatch always breaks the correspondence - also when the same run shows
     (known) specification violations, which would otherwise hide a mutated half behind a known finding"""
@@ -878,6 +1046,47 @@ def threshold_world(ga_end, tail_end):
     return w
 
 
+def pairs_world():
+    """noise-free, tail-free alignments on four genes that exercise left/right pairs at their thresholds (run with --polya_requirement never):
+       GA (+) two isoforms sharing two introns, reads overhanging A's first exon on the left by 100 and B's last exon on the right by 250, and the
+              mirror configuration (left 250 / right 100) on GE (-);
+       GB (-) reads with an extra terminal exon of 31 / 40 / 41 / 42 bp beyond the annotated transcript on either side;
+       GC (+) novel isoforms starting / ending inside an intron of the annotated isoform with which they share their first / last intron;
+       GD (-) two ordinary isoforms, full, partial and mono-exonic reads"""
+    import gen_data
+    rnd = random.Random(7)
+    w = gen_data.World.__new__(gen_data.World)
+    w.rnd = rnd; w.genes = []; w.reads = []; w.truth = {}
+    L = 48000; seq = [rnd.choice("ACGT") for _ in range(L)]; w.chroms = {"chrP": seq}
+    A = [(3100, 3400), (3700, 3900), (4300, 5000), (5400, 5700)]; Bi = [(2200, 2400), (3000, 3400), (3700, 3900), (4300, 4750)]
+    T_ = [(12100, 12400), (12800, 13000), (13500, 13900)]
+    X = [(20100, 20400), (21000, 21200), (21600, 21800), (22200, 22600)]
+    D1 = [(30100, 30350), (30700, 30900), (31300, 31500), (31900, 32300)]; D2 = [(30100, 30350), (31300, 31500), (31900, 32300)]
+    E1 = [(40300, 40600), (41000, 41700), (42100, 42300), (42600, 42900)]; E2 = [(41250, 41700), (42100, 42300), (42600, 43000), (43600, 43800)]
+    G = [("GA", "+", {"GA.A": A, "GA.B": Bi}), ("GB", "-", {"GB.T": T_}), ("GC", "+", {"GC.X": X}), ("GD", "-", {"GD.1": D1, "GD.2": D2}), ("GE", "-", {"GE.1": E1, "GE.2": E2})]
+    strand = {}
+    for gid, st, tr in G:
+        strand[gid] = st
+        pool = sorted(set(e for t in tr.values() for e in t)); iso = {tid: [pool.index(e) for e in t] for tid, t in tr.items()}
+        w.genes.append(dict(id=gid, chr="chrP", strand=st, pool=pool, isoforms=iso, start=pool[0][0], end=pool[-1][1]))
+    R = []
+    def add(prefix, gid, exons, n): R.extend(("%s_%d" % (prefix, i), gid, list(exons)) for i in range(n))
+    add("GA_fsmA", "GA", A, 4); add("GA_fsmB", "GA", Bi, 4); add("GA_over", "GA", [(3000, 3400), (3700, 3900), (4300, 5000)], 3)
+    add("GE_fsm1", "GE", E1, 4); add("GE_fsm2", "GE", E2, 4); add("GE_over", "GE", [(41000, 41700), (42100, 42300), (42600, 43000)], 3)
+    add("GB_fsm", "GB", T_, 5)
+    for ln in (31, 40, 41, 42):
+        add("GB_extraR%d" % ln, "GB", T_ + [(14200 + 10 * ln, 14200 + 11 * ln - 1)], 2); add("GB_extraL%d" % ln, "GB", [(11900 - 11 * ln + 1, 11900 - 10 * ln)] + T_, 2)
+    add("GC_fsmX", "GC", X, 10); add("GC_altstart", "GC", [(20800, 21200), (21600, 21800), (22200, 22600)], 6); add("GC_altend", "GC", [(20100, 20400), (21000, 21200), (21600, 22000)], 6)
+    add("GD_fsm1", "GD", D1, 5); add("GD_fsm2", "GD", D2, 4); add("GD_ism1", "GD", [(30750, 30900), (31300, 31500), (31900, 32250)], 3); add("GD_mono", "GD", [(32000, 32280)], 2)
+    for gid, st, tr in G:
+        for t in tr.values(): w.plant(t, "chrP", st)
+    for nm, gid, ex in R:
+        if len(ex) > 1: w.plant(ex, "chrP", strand[gid])
+    w.chroms["chrP"] = "".join(seq)
+    for nm, gid, ex in R: w.add_read(nm, "chrP", ex, strand[gid], polya=False)
+    return w
+
+
 def cut_phase_key(bam, read_id, k):
     """structural key of a read whose output changes under a shift by k: replay the REAL clustering + split_coverage_regions for the read's
        cluster at shift 0 and at shift k; the key holds iff the cluster is beyond the splitting thresholds (so that neither
@@ -933,7 +1142,13 @@ def pipeline_metamorphic(ctx, quick):
         w = threshold_world(33700, 34100); d = os.path.join(base, "above_threshold", "orig"); w.write(d)
         datasets.append(("locus_33076bp", dict(fasta=os.path.join(d, "genome.fa"), gtf=os.path.join(d, "annotation.gtf"), bam=os.path.join(d, "reads0.bam")), True,
                          [("shift", 1), ("shift", 100), ("shift", 255), ("shift", 256), ("shift", 512)]))
-        datasets = [dd if len(dd) == 4 else dd + (ALL,) for dd in datasets]
+        w = pairs_world(); d = os.path.join(base, "pairs", "orig"); w.write(d)
+        datasets.append(("pairs_world", dict(fasta=os.path.join(d, "genome.fa"), gtf=os.path.join(d, "annotation.gtf"), bam=os.path.join(d, "reads0.bam")), True,
+                         [("shift", 1), ("shift", 1000), ("mirror",)], ["--polya_requirement", "never"]))
+        datasets = [dd if len(dd) >= 4 else dd + (ALL,) for dd in datasets]
+        datasets = [dd if len(dd) == 5 else dd + ([],) for dd in datasets]
+        extra_args = {dd[0]: dd[4] for dd in datasets}
+        datasets = [dd[:4] for dd in datasets]
         inputs = {}; trs = {}
         for name, inp, cm, specs in datasets:
             droot = os.path.dirname(os.path.dirname(inp["fasta"]))
@@ -946,7 +1161,7 @@ def pipeline_metamorphic(ctx, quick):
             name, tn, sym = job; inp = inputs[(name, tn)]
             droot = os.path.dirname(os.path.dirname(inp["fasta"]))
             out = os.path.join(droot, "out_%s_%s" % (tn, sym.replace(",", "+") or "plain"))
-            args = ["--reference", inp["fasta"], "--genedb", inp["gtf"], "--complete_genedb", "--bam", inp["bam"], "--data_type", "nanopore", "--delta", str(DELTA), "-p", "OUT", "-t", "1"]
+            args = ["--reference", inp["fasta"], "--genedb", inp["gtf"], "--complete_genedb", "--bam", inp["bam"], "--data_type", "nanopore", "--delta", str(DELTA), "-p", "OUT", "-t", "1"] + extra_args.get(name, [])
             rc, log = P.run_isoquant(out, args, wrapper=WRAPPER, env_extra=dict(C11_SYM=sym, C11_LOG=out + ".c11log", VERIF_REPO=REPO), timeout=900)
             return job, out, rc, log
         def wave(jobs):
@@ -1068,6 +1283,9 @@ def run(ctx):
     phase("assigner", unit_assigner, ctx, quick)
     phase("thread", unit_thread, ctx, quick)
     phase("split", unit_split, ctx, quick)
+    phase("score", unit_score, ctx, quick)
+    phase("internal", unit_internal, ctx, quick)
+    phase("junctions", unit_junctions, ctx, quick)
     phase("pipeline", pipeline_metamorphic, ctx, quick)
     ctx.notes.append("phases: " + ", ".join(timing))
     ctx.exhaustive = False
